@@ -75,6 +75,25 @@ type inst struct {
 
 var instCounter int
 
+// customAOF: data directories whose server runs with --appendfilename <path> (a log outside the
+// data directory, under a name of its own); aofPath gives the log of a data directory.
+var customAOF = map[string]string{}
+
+func aofPath(dir string) string {
+	if p, ok := customAOF[dir]; ok {
+		return p
+	}
+	return filepath.Join(dir, "appendonly.aof")
+}
+
+// useCustomAOF makes every server started on dir use <work>/<tag>-logs/store.log as its log.
+func useCustomAOF(work, dir, tag string) {
+	ld := filepath.Join(work, tag+"-logs")
+	os.RemoveAll(ld)
+	os.MkdirAll(ld, 0o755)
+	customAOF[dir] = filepath.Join(ld, "store.log")
+}
+
 // startInst starts a server on dir with the shrink gate socket configured.
 func startInst(work, dir string) *inst {
 	in, err := startInstE(work, dir)
@@ -90,7 +109,11 @@ func startInstE(work, dir string) (*inst, error) {
 	sock := filepath.Join(work, fmt.Sprintf("g%d.sock", instCounter))
 	os.Setenv("VERIF_SHRINK_SOCK", sock)
 	os.Unsetenv("VERIF_CRASH")
-	s, err := srv.Start(dir)
+	var extra []string
+	if custom, ok := customAOF[dir]; ok {
+		extra = []string{"--appendfilename", custom}
+	}
+	s, err := srv.Start(dir, extra...)
 	os.Unsetenv("VERIF_SHRINK_SOCK")
 	if err != nil {
 		if s != nil && s.Alive() {
@@ -167,7 +190,7 @@ func (in *inst) shrinkWith(kinds string, at func(ev event) bool) ([]event, strin
 			// the end of a rewrite: the new file has been swapped in. If the -shrink file is still
 			// there the event came from somewhere else (e.g. a second request that returned early);
 			// give the real rewrite, now released, the time to finish before the state is compared.
-			for i := 0; i < 300 && fileSize(filepath.Join(in.dir, "appendonly.aof-shrink")) >= 0; i++ {
+			for i := 0; i < 300 && fileSize(aofPath(in.dir)+"-shrink") >= 0; i++ {
 				in.endedEarly = true
 				time.Sleep(10 * time.Millisecond)
 			}
@@ -481,7 +504,7 @@ func quiescent(r *hx.Result, cfg hx.Config, rng *rand.Rand, idx int, nonUTF8 boo
 		}
 	}
 	before := dumpFull(in.c)
-	szBefore := fileSize(filepath.Join(dir, "appendonly.aof"))
+	szBefore := fileSize(aofPath(dir))
 	evs, e := in.shrinkWith("", nil)
 	sig := "shrink-quiescent"
 	if nonUTF8 {
@@ -494,8 +517,8 @@ func quiescent(r *hx.Result, cfg hx.Config, rng *rand.Rand, idx int, nonUTF8 boo
 	}
 	_ = evs
 	after := dumpFull(in.c)
-	recs, rerr := readAOF(filepath.Join(dir, "appendonly.aof"))
-	szAfter := fileSize(filepath.Join(dir, "appendonly.aof"))
+	recs, rerr := readAOF(aofPath(dir))
+	szAfter := fileSize(aofPath(dir))
 	in.stop()
 	in2 := startInst(cfg.Work, dir)
 	restarted := dumpFull(in2.c)
@@ -853,6 +876,10 @@ func (in *inst) dead() {
 func playSchedule(r *hx.Result, cfg hx.Config, drv *model.Driver, sc schedule, idx int) {
 	dir := filepath.Join(cfg.Work, fmt.Sprintf("m%d", idx))
 	os.RemoveAll(dir)
+	if sc.CrashFirst != "" && idx%2 == 0 {
+		// every other crash-first schedule runs with a log name of its own
+		useCustomAOF(cfg.Work, dir, fmt.Sprintf("m%d", idx))
+	}
 	in := startInst(cfg.Work, dir)
 	defer func() { in.close() }()
 	drv.Ask("new")
@@ -997,7 +1024,7 @@ func playSchedule(r *hx.Result, cfg hx.Config, drv *model.Driver, sc schedule, i
 	}
 	// file records: the object snapshot and the hook snapshot in canonical text (TTL digits
 	// dropped), then the shrinklog: the logged commands exactly as they were sent
-	recs, rerr := readAOF(filepath.Join(dir, "appendonly.aof"))
+	recs, rerr := readAOF(aofPath(dir))
 	var modelRecs []string
 	for _, s := range []string{drv.Ask("out"), drv.Ask("hout")} {
 		if s != "-" {
@@ -1221,7 +1248,24 @@ func witnessSchedules() []schedule {
 	ks.name = "witness-hook-kind-switch"
 	ks.Init = []mcmd{{op: "set", a: "a", b: "1", v: "x"}}
 	ks.Before = map[int][]mcmd{0: {{op: "sethook", a: "x", eps: "http://127.0.0.1:1/x", fence: fence}, {op: "delhook", a: "x"}, {op: "setchan", a: "x", fence: fence}}}
-	out = append(out, w, h, ks)
+	// Acknowledged FSET / EXPIRE / PERSIST whose object, or whole collection, is deleted again before
+	// the rewrite reads it: the records stay in the shrinklog and fail on replay with id / key not
+	// found, which the loader must ignore
+	var gone schedule
+	gone.name = "witness-write-then-delete"
+	for _, k := range []string{"a", "y", "z"} {
+		for i := 0; i < 3; i++ {
+			gone.Init = append(gone.Init, mcmd{op: "set", a: k, b: fmt.Sprintf("i%d", i), v: "v", ex: i == 2})
+		}
+	}
+	gone.Before = map[int][]mcmd{
+		-1: {{op: "fset", a: "z", b: "i0", fs: []fu{{"speed", fvp(0)}}}, {op: "expire", a: "z", b: "i1"}, {op: "persist", a: "z", b: "i2"},
+			{op: "del", a: "z", b: "i0"}, {op: "pdel", a: "z", b: "i1"},
+			{op: "fset", a: "y", b: "i0", fs: []fu{{"a", fvp(2)}}}, {op: "persist", a: "y", b: "i2"}, {op: "expire", a: "y", b: "i1"}},
+		0: {{op: "drop", a: "y"}, {op: "fset", a: "z", b: "i2", fs: []fu{{"b", fvp(1)}}}, {op: "del", a: "z", b: "i2"}},
+		1: {{op: "fset", a: "a", b: "i1", fs: []fu{{"b", fvp(1)}}}},
+	}
+	out = append(out, w, h, ks, gone)
 	// an interrupted rewrite leaves files behind; the dataset shrinks; the next rewrite completes
 	for _, cp := range []string{"after-sync", "after-rename-bak", "before-append"} {
 		var e schedule
@@ -1479,17 +1523,20 @@ func renameHookWitness(r *hx.Result, cfg hx.Config) {
 
 func dirState(dir string) string {
 	p := func(n string) string {
-		if fileSize(filepath.Join(dir, n)) >= 0 {
+		if fileSize(aofPath(dir)+n) >= 0 {
 			return "1"
 		}
 		return "0"
 	}
-	return "live=" + p("appendonly.aof") + " bak=" + p("appendonly.aof-bak") + " shrink=" + p("appendonly.aof-shrink")
+	return "live=" + p("") + " bak=" + p("-bak") + " shrink=" + p("-shrink")
 }
 
-func crashScenario(r *hx.Result, cfg hx.Config, rng *rand.Rand, drv *model.Driver, cp string, idx int) {
+func crashScenario(r *hx.Result, cfg hx.Config, rng *rand.Rand, drv *model.Driver, cp string, idx int, custom bool) {
 	dir := filepath.Join(cfg.Work, fmt.Sprintf("x%d", idx))
 	os.RemoveAll(dir)
+	if custom {
+		useCustomAOF(cfg.Work, dir, fmt.Sprintf("x%d", idx))
+	}
 	in := startInst(cfg.Work, dir)
 	defer func() { in.close() }()
 	ds := genDataset(rng, 9+rng.Intn(4), 1, true, false)
@@ -1523,6 +1570,9 @@ func crashScenario(r *hx.Result, cfg hx.Config, rng *rand.Rand, drv *model.Drive
 		return true
 	})
 	cs := map[string]interface{}{"scenario": "crash", "crash_point": cp, "index": idx}
+	if custom {
+		cs["appendfilename"] = "--appendfilename <work>/x<idx>-logs/store.log (outside the data directory)"
+	}
 	if cp == "kill-mid-scan" {
 		cs["killed_at"] = killedAt
 		if acked == "" {
@@ -1559,7 +1609,7 @@ func crashScenario(r *hx.Result, cfg hx.Config, rng *rand.Rand, drv *model.Drive
 	r.Sample(30, cs)
 	if recovered != acked {
 		a, b := diffLines(acked, recovered)
-		r.Fail(hx.Failure{Kind: "oracle", Signature: "shrink-crash-" + cp, What: fmt.Sprintf("after a crash at %s (directory: %s) a restart does not recover the acknowledged state: %d lines missing, %d extra", cp, state, len(a), len(b)), Case: cs, Impl: map[string]interface{}{"only_acknowledged": clip(a, 6), "only_recovered": clip(b, 6)}})
+		r.Fail(hx.Failure{Kind: "oracle", Signature: "shrink-crash-" + cp, What: fmt.Sprintf("after a crash at %s (files: %s; custom --appendfilename: %v) a restart does not recover the acknowledged state: %d lines missing, %d extra", cp, state, custom, len(a), len(b)), Case: cs, Impl: map[string]interface{}{"only_acknowledged": clip(a, 6), "only_recovered": clip(b, 6)}})
 		return
 	}
 	// The leftovers (-bak / -shrink) must not influence later rewrites: the dataset changes (a large
@@ -1597,7 +1647,7 @@ func crashScenario(r *hx.Result, cfg hx.Config, rng *rand.Rand, drv *model.Drive
 			r.Fail(hx.Failure{Kind: "correspondence", Signature: "shrink-model-crash-dir", What: "files present after a complete rewrite on the leftovers of a crash at " + cp + " differ from the model's", Case: cs, Impl: state2, Model: want[1]})
 		}
 	}
-	if bad := checkShrunkFile(filepath.Join(dir, "appendonly.aof"), acked2); bad != "" {
+	if bad := checkShrunkFile(aofPath(dir), acked2); bad != "" {
 		r.Fail(hx.Failure{Kind: "oracle", Signature: "shrink-leftovers-in-new-file", What: "AOFSHRINK on a directory with leftovers of a rewrite that died at " + cp + " (" + state + "), after the dataset got smaller: " + bad, Case: cs})
 	}
 	in.stop()
@@ -1613,7 +1663,7 @@ func crashScenario(r *hx.Result, cfg hx.Config, rng *rand.Rand, drv *model.Drive
 // ---------------------------------------------------------------- main
 
 func runC09(r *hx.Result, cfg hx.Config) {
-	r.Rule = "real servers (build tag verif) driven through the rewrite gate. quiescent: random datasets with more than maxkeys collections and more than maxids objects in a collection, every object kind, odd field values, deadlines, hooks and channels with META/EX: dump before = after = after restart, and the shrunk file holds exactly one SET per object; non-trivial = more than 8 collections and more than 40 objects. concurrent: 1-3 random writes (SET/FSET/DEL/PDEL/DROP/FLUSHDB/EXPIRE/PERSIST/JSET/JDEL/hook commands, keys and ids straddling the reported cursor) at the gates: live dump = dump after restart; non-trivial = at least one effective write and more than 12 gates. model schedules: schedules over SET/DEL/DROP/FLUSHDB (+RENAME in a separate stream and the Coq witnesses) played on server and extracted model: cursor at every gate, file records, live dataset and dataset after restart compared; non-trivial = at least one concurrent write and more than 2 batches. further AOFSHRINK requests are issued as writer commands while the rewrite is parked (model: Req, a no-op while shrinking) in every model schedule and every concurrent scenario. crash: every crash point of the final swap and a kill in the middle of the scan: restart recovers the acknowledged dump, directory contents as in the model; then the dataset is made smaller (about half of the collections dropped, a few objects added), a complete AOFSHRINK runs on the leftovers (-shrink / -bak), the new file must hold exactly one SET per remaining object and a second restart must give the same dump; the same as model schedules (crash first, mutate, rewrite, file records = model)."
+	r.Rule = "real servers (build tag verif) driven through the rewrite gate. quiescent: random datasets with more than maxkeys collections and more than maxids objects in a collection, every object kind, odd field values, deadlines, hooks and channels with META/EX: dump before = after = after restart, and the shrunk file holds exactly one SET per object; non-trivial = more than 8 collections and more than 40 objects. concurrent: 1-3 random writes (SET/FSET/DEL/PDEL/DROP/FLUSHDB/EXPIRE/PERSIST/JSET/JDEL/hook commands, keys and ids straddling the reported cursor) at the gates: live dump = dump after restart; non-trivial = at least one effective write and more than 12 gates. model schedules: schedules over SET/DEL/DROP/FLUSHDB (+RENAME in a separate stream and the Coq witnesses) played on server and extracted model: cursor at every gate, file records, live dataset and dataset after restart compared; non-trivial = at least one concurrent write and more than 2 batches. further AOFSHRINK requests are issued as writer commands while the rewrite is parked (model: Req, a no-op while shrinking) in every model schedule and every concurrent scenario. crash: every crash point of the final swap and a kill in the middle of the scan, two out of three with --appendfilename pointing outside the data directory: restart recovers the acknowledged dump, directory contents as in the model; then the dataset is made smaller (about half of the collections dropped, a few objects added), a complete AOFSHRINK runs on the leftovers (-shrink / -bak), the new file must hold exactly one SET per remaining object and a second restart must give the same dump; the same as model schedules (crash first, mutate, rewrite, file records = model)."
 	r.Assumptions = []string{
 		"a crash is the death of the process (os.Exit at a named point / SIGKILL); the page cache survives, fsync is not modelled",
 		"B-tree Ascend / ScanGreaterOrEqual are modelled as iteration over a sorted list",
@@ -1675,10 +1725,14 @@ func runC09(r *hx.Result, cfg hx.Config) {
 	cps := strings.Split(drv.Ask("cpoints"), ",")
 	crashPoints = cps
 	for round := 0; round < ncrashRounds; round++ {
-		for _, cp := range append(cps, "kill-mid-scan") {
+		for j, cp := range append(cps, "kill-mid-scan") {
 			cp := cp
 			idx++
-			guard("crash "+cp, func() { crashScenario(r, cfg, rng, drv, cp, idx) })
+			// two crash points out of three run with a log name of their own (--appendfilename),
+			// always the one between the two renames; the default name is also what the
+			// crash-first model schedules use
+			custom := (j+round)%3 != 2 || (cp == "after-rename-bak" && round%2 == 0)
+			guard("crash "+cp, func() { crashScenario(r, cfg, rng, drv, cp, idx, custom) })
 		}
 	}
 	// 3. quiescent
